@@ -39,7 +39,11 @@ import (
 // the same call (PromiseContainer.Await, Access's private Broadcast sections, the final Release)
 // parks. refcount.resolve goroutines do not park at their Go hook (they run on to their select /
 // into the resolver), they park before their store section. The async released goroutine, the
-// WaitWithReleased release goroutine and the Access watcher park at their Go hook only.
+// WaitWithReleased release goroutine and the Access watcher park at their Go hook only. An Access
+// caller additionally parks right after its snapshot section (Unlocked hook of the private
+// Broadcast), so that an invalidation can land after Access looked and before the callback is
+// entered. Option "f15" (diagnostic, not used by the checks) parks a ResolveWithReleased caller
+// between AddRef's unlock and the assignment of `ref` in WaitWithReleased.
 
 // rcOp is one client operation.
 //
@@ -628,7 +632,9 @@ func (d *rcDriver) Run(x *sched.Exec, raw json.RawMessage) json.RawMessage {
 					ms = append(ms, sched.Move{Label: fmt.Sprintf("res:%d:%s", n, o), Do: func() { x.Resume(p, o) }})
 				}
 			}
-			if d.phase == 0 && rs.nOut < sc.RelOut && !d.helper.c.Busy() {
+			// (random scenarios: no more released() calls once 8 resolver calls were made, so that an
+			// execution is not spent on release/resolve cycles; the X scenarios stay far below)
+			if d.phase == 0 && rs.nOut < sc.RelOut && d.nres <= 8 && !d.helper.c.Busy() {
 				rs := rs
 				ms = append(ms, sched.Move{Label: fmt.Sprintf("released:%d", rs.n), Actor: "h", Do: func() {
 					rs.nOut++
